@@ -6,7 +6,7 @@ package main
 // disk again for every pass):
 //
 //   used_by    <-> MkLines.CheckUsedBy on a Makefile.common     (all files of <= L lines over 8 line shapes)
-//   plist_pass <-> CheckLinesPlist(nil, …) on a PLIST           (all files of <= L lines over 13 line shapes + an unsortable marker)
+//   plist_pass <-> CheckLinesPlist(nil, …) on a PLIST           (all files of <= L lines over 15 line shapes + an unsortable marker)
 //   check_cvsid<-> Lines.CheckCvsID with the arguments of its three kinds of call sites
 //
 // For every case the real fixer runs four passes; pass i must give what the
@@ -74,11 +74,13 @@ var c16UsedByAlphabet = []string{"", "#", "# $" + "NetBSD$", "# comment", "# use
 var c16UsedByExtra = []string{" # indented", "\t# after a tab", "   ", "\t", "#VAR=\tcommented", "\t# used by " + c16UsedByName}
 
 var c16PlistAlphabet = []string{"@comment $" + "NetBSD$", "", "bin/a", "man/man1/a.1.gz", "man/man1/b.1", "${PLIST.x}man/man3/c.3.gz",
-	"${PKGMANDIR}/man1/d.1.gz", "man/cat1/e.0.gz.gz", "${PLIST.x}", "@comment c", "${PKGMANDIR}/man1/${PKGMANDIR}/f.1", "man/man1/g.gz", "${PLIST.x}${PLIST.y-z}man/manx/h..gz"}
+	"${PKGMANDIR}/man1/d.1.gz", "man/cat1/e.0.gz.gz", "${PLIST.x}", "@comment c", "${PKGMANDIR}/man1/${PKGMANDIR}/f.1", "man/man1/g.gz", "${PLIST.x}${PLIST.y-z}man/manx/h..gz",
+	"@unexec rmdir %D/share/x", "@unexec ${RMDIR} %D/y || ${TRUE}"}
 
 var c16PlistExtra = []string{"man/man1/i.1.gz", "man/man8/j.8.gz", "${PLIST.y}man/cat5/k.0.gz", "${PKGMANDIR}", "${PKGMANDIR}/man5/l.5", "man/m.1.gz", "man/man1/n-1.gz", "man/man1/sub/o.1.gz",
 	"share/man/man1/p.1.gz", "${PLIST.}man/man1/q.1.gz", "${PLIST.x}bin/r", "lib/s.gz", "man/mann/t.n.gz", "man/man3/u.3.gz.gz.gz", "@pkgdir v",
-	"man/man1/README", "man/man1/w.", "/absolute/x.1.gz", "man/man1/", "man"}
+	"man/man1/README", "man/man1/w.", "/absolute/x.1.gz", "man/man1/", "man",
+	"@unexec ${RMDIR} %D/share/z", "@unexec rmdir %D/t 2>/dev/null || true", "@unexec\t rmdir", "@unexec echo rmdir", "@exec rmdir %D/u", "@unexec ${RMDIR} /abs", "${PLIST.x}@unexec rmdir %D/v", "@unexec-x rmdir %D/w"}
 
 func c16AllSeqs(alpha []string, maxLen int, f func([]string)) {
 	var rec func(cur []string)
@@ -330,7 +332,7 @@ func c16Fixers(ctx *Ctx, res *Result, rng *Rng) {
 		res.AddViolation(Violation{Key: key, What: what, FoundInput: found, Size: len(c.content()), Replay: rep})
 	}
 	res.Count("fixers.exhaustive usedby: all files of up to N lines over 8 line shapes, N", exLen["usedby"])
-	res.Count("fixers.exhaustive plist: all files of up to N lines over 13 line shapes (+ marker), N", exLen["plist"])
+	res.Count("fixers.exhaustive plist: all files of up to N lines over 15 line shapes (+ marker), N", exLen["plist"])
 	c16FixerFloors(res)
 	c16CrossCheckExtraction(ctx, res, crossReq, crossAns)
 }
